@@ -23,7 +23,7 @@ LEVEL = "model_checking"
 
 def _match(ev, case):
     return {"symptom": "trace_rejected", "kind": case.get("kind", ""), "act": case.get("act", ""),
-            "n": str(len(case.get("old", []))), "r": str(case.get("r")), "hasher": case.get("hasher", "")}
+            "n": str(len(case.get("old") or []) or case.get("n0", 0)), "r": str(case.get("r")), "hasher": case.get("hasher", "")}
 
 
 def run(ctx):
